@@ -226,7 +226,8 @@ func runC04(c *core.Ctx) {
 					}
 					sl := core.DepSlice(cdOf(fn), args[idx])
 					hasOverride, hasOwn := false, false
-					for x := range sl {
+					// data dependence only: a value that merely sits behind a test of the override is not the override
+					for x := range core.BackSlice(args[idx]) {
 						if lk, ok := x.(*ssa.Lookup); ok {
 							for y := range core.BackSlice(lk.X) {
 								if f := core.FieldOf(y); f != nil && f.Name() == "overrides" {
@@ -297,6 +298,8 @@ func runC04(c *core.Ctx) {
 
 	// ---- R-indicators
 	checkIndicators(c, mainFuncs)
+	checkRecorded(c, mainFuncs)
+	checkIgnoreCover(c, "verdict.ignorecover")
 
 	// ---- R-exit
 	checkExitOnErrExit(c, "verdict.exit", "runLint")
@@ -665,4 +668,232 @@ func exitWalk(start, pred *ssa.BasicBlock) string {
 		return ""
 	}
 	return walk(start, pred, map[ssa.Value]bool{})
+}
+
+// checkRecorded (verdict.recorded): under -json (*Runner).Run drops the error of r.run. That is sound only if
+//   (a) the dropped error can only be ErrParser (the continue-edge is guarded by a comparison with ErrParser), and
+//   (b) every return of ErrParser in cmd/falco is preceded, on every -json path, by a store into Runner.parseErrors,
+//       where the `.(*parser.ParseError)` assertions on the way are known to hold: the asserted value is
+//       errors.Cause(err) of a parser error (C01 err.located: every parser error is a *ParseError) or
+//       Linter.FatalError.Error, which (c) the linter only ever fills with errors.Cause(parser error).
+func checkRecorded(c *core.Ctx, mainFuncs []*ssa.Function) {
+	prog := c.Prog
+	run := prog.SSAFunc("cmd/falco", "Runner.Run")
+	inner := prog.SSAFunc("cmd/falco", "Runner.run")
+	if run == nil || inner == nil {
+		c.MissingAnchor("verdict.recorded", "(*Runner).Run / (*Runner).run")
+		return
+	}
+	isErrParser := func(v ssa.Value) bool {
+		ld, ok := v.(*ssa.UnOp)
+		if !ok || ld.Op != token.MUL {
+			return false
+		}
+		g, ok := ld.X.(*ssa.Global)
+		return ok && g.Name() == "ErrParser"
+	}
+	// (a)
+	var innerErr ssa.Value
+	for _, b := range run.Blocks {
+		for _, in := range b.Instrs {
+			if call, ok := in.(*ssa.Call); ok && call.Common().StaticCallee() == inner {
+				for _, e := range core.ErrorResults(call) {
+					innerErr = e
+				}
+			}
+		}
+	}
+	if innerErr == nil {
+		c.MissingAnchor("verdict.recorded", "call of r.run in Run")
+		return
+	}
+	// walk Run assuming r.run failed with an error that is neither nil nor ErrParser
+	{
+		var start *ssa.BasicBlock
+		for _, b := range run.Blocks {
+			for _, in := range b.Instrs {
+				if call, ok := in.(*ssa.Call); ok && call.Common().StaticCallee() == inner {
+					start = b
+				}
+			}
+		}
+		seen := map[*ssa.BasicBlock]bool{}
+		var bad []*ssa.Return
+		var walk func(b *ssa.BasicBlock)
+		walk = func(b *ssa.BasicBlock) {
+			if seen[b] {
+				return
+			}
+			seen[b] = true
+			for _, in := range b.Instrs {
+				if r, ok := in.(*ssa.Return); ok {
+					for _, rs := range core.ReturnSites(run) {
+						if rs.Ret == r && len(rs.Results) == 2 && core.IsNilConst(rs.Results[1]) {
+							bad = append(bad, r)
+						}
+					}
+					return
+				}
+			}
+			if iff, ok := b.Instrs[len(b.Instrs)-1].(*ssa.If); ok {
+				if bo, ok := iff.Cond.(*ssa.BinOp); ok && (bo.Op == token.NEQ || bo.Op == token.EQL) {
+					other := ssa.Value(nil)
+					if bo.X == innerErr {
+						other = bo.Y
+					} else if bo.Y == innerErr {
+						other = bo.X
+					}
+					if other != nil && (core.IsNilConst(other) || isErrParser(other)) {
+						// the error differs from nil and from ErrParser
+						if bo.Op == token.NEQ {
+							walk(b.Succs[0])
+						} else {
+							walk(b.Succs[1])
+						}
+						return
+					}
+				}
+				if call, ok := iff.Cond.(*ssa.Call); ok {
+					if cal := call.Common().StaticCallee(); cal != nil && cal.Name() == "Is" && len(call.Common().Args) == 2 && call.Common().Args[0] == innerErr && isErrParser(call.Common().Args[1]) {
+						walk(b.Succs[1])
+						return
+					}
+				}
+			}
+			for _, s := range b.Succs {
+				walk(s)
+			}
+		}
+		if start != nil {
+			walk(start)
+		}
+		if len(bad) == 0 {
+			c.Discharge("verdict.recorded", "Run|swallow", run.Pos(), "the only error of r.run that Run drops is ErrParser")
+		}
+		for _, r := range bad {
+			c.Report("verdict.recorded", "Run|swallow@"+retLabel(run, r), r.Pos(), "(*Runner).Run can return a result with a nil error after r.run failed with an error other than ErrParser: under -json such a failure is neither returned nor recorded, the command reports success")
+		}
+	}
+	// (c) producer invariant
+	producerOK := true
+	lfuncs := prog.ModuleFuncs("linter")
+	nprod := 0
+	for _, fn := range lfuncs {
+		for _, b := range fn.Blocks {
+			for _, in := range b.Instrs {
+				st, ok := in.(*ssa.Store)
+				if !ok {
+					continue
+				}
+				fa, ok := st.Addr.(*ssa.FieldAddr)
+				if !ok || core.FieldOf(fa) == nil || core.FieldOf(fa).Name() != "Error" || core.FieldOwner(fa) != linterPkg+".FatalError" {
+					continue
+				}
+				nprod++
+				good := false
+				if call, ok := st.Val.(*ssa.Call); ok {
+					if cal := call.Common().StaticCallee(); cal != nil && cal.Name() == "Cause" && cal.Pkg != nil && cal.Pkg.Pkg.Path() == "github.com/pkg/errors" {
+						for x := range core.BackSlice(call.Common().Args[0]) {
+							if cl, ok := x.(*ssa.Call); ok {
+								if cc := cl.Common().StaticCallee(); cc != nil && cc.Pkg != nil && strings.HasSuffix(cc.Pkg.Pkg.Path(), "/parser") {
+									good = true
+								}
+							}
+						}
+					}
+				}
+				key := core.FnName(fn) + "|FatalError.Error"
+				if good {
+					c.Discharge("verdict.recorded", key, in.Pos(), "errors.Cause of a parser error (a *ParseError by C01 err.located)")
+				} else {
+					producerOK = false
+					c.Report("verdict.recorded", key, in.Pos(), "FatalError.Error is not filled with errors.Cause(<parser error>): the runner's `.(*parser.ParseError)` assertion fails, the syntax error of an included module is not recorded and `lint -json` exits 0")
+				}
+			}
+		}
+	}
+	if nprod == 0 {
+		c.MissingAnchor("verdict.recorded", "stores to linter.FatalError.Error")
+	}
+	// (b)
+	for _, fn := range mainFuncs {
+		for _, rs := range core.ReturnSites(fn) {
+			if len(rs.Results) == 0 || !isErrParser(rs.Results[len(rs.Results)-1]) {
+				continue
+			}
+			target := rs.Ret.Block()
+			// forward walk over "not yet recorded" states
+			records := func(b *ssa.BasicBlock) bool {
+				for _, in := range b.Instrs {
+					if mu, ok := in.(*ssa.MapUpdate); ok {
+						for x := range core.BackSlice(mu.Map) {
+							if f := core.FieldOf(x); f != nil && f.Name() == "parseErrors" {
+								return true
+							}
+						}
+					}
+				}
+				return false
+			}
+			skipEdge := func(b *ssa.BasicBlock, idx int) bool {
+				iff, ok := b.Instrs[len(b.Instrs)-1].(*ssa.If)
+				if !ok {
+					return false
+				}
+				// the -json == false edge
+				if ld, ok := iff.Cond.(*ssa.UnOp); ok && ld.Op == token.MUL {
+					if f := core.FieldOf(ld.X); f != nil && f.Name() == "Json" {
+						return idx == 1
+					}
+				}
+				// the failing edge of a *parser.ParseError assertion whose operand is known to be one
+				if ex, ok := iff.Cond.(*ssa.Extract); ok && ex.Index == 1 {
+					if ta, ok := ex.Tuple.(*ssa.TypeAssert); ok && core.NamedTypeName(ta.AssertedType) == "ParseError" && idx == 1 {
+						for x := range core.BackSlice(ta.X) {
+							if cl, ok := x.(*ssa.Call); ok {
+								if cal := cl.Common().StaticCallee(); cal != nil && cal.Name() == "Cause" {
+									return true
+								}
+							}
+							if f := core.FieldOf(x); f != nil && f.Name() == "Error" && core.FieldOwner(x) == linterPkg+".FatalError" {
+								return producerOK
+							}
+						}
+					}
+				}
+				return false
+			}
+			seen := map[*ssa.BasicBlock]bool{}
+			reach := false
+			var walk func(b *ssa.BasicBlock)
+			walk = func(b *ssa.BasicBlock) {
+				if seen[b] {
+					return
+				}
+				seen[b] = true
+				if records(b) {
+					return
+				}
+				if b == target {
+					reach = true
+					return
+				}
+				for i, s := range b.Succs {
+					if !skipEdge(b, i) {
+						walk(s)
+					}
+				}
+			}
+			// start after the failure is known: at function entry
+			walk(fn.Blocks[0])
+			// only failure paths matter: the return itself is the failure
+			key := core.FnName(fn) + "|return ErrParser@" + retLabel(fn, rs.Ret)
+			if reach {
+				c.Report("verdict.recorded", key, rs.Ret.Pos(), core.FnName(fn)+" can return ErrParser under -json without having stored the syntax error in Runner.parseErrors: Run drops ErrParser, so the failure vanishes and `lint -json` exits 0")
+			} else {
+				c.Discharge("verdict.recorded", key, rs.Ret.Pos(), "every -json path to this return stores the error in parseErrors")
+			}
+		}
+	}
+	c.Floor("verdict.recorded", 4)
 }
